@@ -604,6 +604,11 @@ func (f *Formatter) renderOpenTag(n *html.Node) string {
 
 	for _, attr := range n.Attr {
 		buf.WriteString(" ")
+		if attr.Namespace != "" {
+			// foreign attributes such as xlink:href
+			buf.WriteString(attr.Namespace)
+			buf.WriteString(":")
+		}
 		buf.WriteString(attr.Key)
 		// (the emptiness test is on the formatted value, so that a blank value
 		// takes the same form on every pass)
